@@ -472,6 +472,10 @@ spif_dlinked_list_dup(spif_dlinked_list_t self)
     ASSERT_RVAL(!SPIF_LIST_ISNULL(self), (spif_dlinked_list_t) NULL);
     tmp = spif_dlinked_list_new();
     memcpy(tmp, self, SPIF_SIZEOF_TYPE(dlinked_list));
+    if (SPIF_DLINKED_LIST_ITEM_ISNULL(self->head)) {
+        /* Nothing to copy. */
+        return tmp;
+    }
     tmp->head = spif_dlinked_list_item_dup(self->head);
     for (src = self->head, dest = tmp->head, prev = (spif_dlinked_list_item_t) NULL;
          src->next;
@@ -493,6 +497,10 @@ spif_dlinked_list_vector_dup(spif_dlinked_list_t self)
     ASSERT_RVAL(!SPIF_VECTOR_ISNULL(self), (spif_dlinked_list_t) NULL);
     tmp = spif_dlinked_list_vector_new();
     memcpy(tmp, self, SPIF_SIZEOF_TYPE(dlinked_list));
+    if (SPIF_DLINKED_LIST_ITEM_ISNULL(self->head)) {
+        /* Nothing to copy. */
+        return tmp;
+    }
     tmp->head = spif_dlinked_list_item_dup(self->head);
     for (src = self->head, dest = tmp->head, prev = (spif_dlinked_list_item_t) NULL;
          src->next;
@@ -514,6 +522,10 @@ spif_dlinked_list_map_dup(spif_dlinked_list_t self)
     ASSERT_RVAL(!SPIF_MAP_ISNULL(self), (spif_dlinked_list_t) NULL);
     tmp = spif_dlinked_list_map_new();
     memcpy(tmp, self, SPIF_SIZEOF_TYPE(dlinked_list));
+    if (SPIF_DLINKED_LIST_ITEM_ISNULL(self->head)) {
+        /* Nothing to copy. */
+        return tmp;
+    }
     tmp->head = spif_dlinked_list_item_dup(self->head);
     for (src = self->head, dest = tmp->head, prev = (spif_dlinked_list_item_t) NULL;
          src->next;
